@@ -1,8 +1,11 @@
 #!/bin/sh
-# tools/rebase_wt.sh <worktree>: carry the uncommitted seeded change over to /repo's current main
+# tools/rebase_wt.sh <worktree>: carry the uncommitted seeded change over to /repo's current main (no git stash: it is shared between worktrees)
 wt="$1"; cd "$wt" || exit 2
 if [ "$(git rev-parse HEAD)" != "$(git -C /repo rev-parse main)" ]; then
-  git stash -q -- src && git checkout -q --detach main && git stash pop -q || { echo "REBASE CONFLICT in $wt"; exit 1; }
+  git diff -- src > /tmp/_rb_$$.diff
+  git checkout -- src && git checkout -q --detach main && git apply --3way /tmp/_rb_$$.diff || { echo "REBASE CONFLICT in $wt"; exit 1; }
+  git reset -q
   cp /repo/src/decaylanguage/_version.py src/decaylanguage/_version.py
+  rm -f /tmp/_rb_$$.diff
 fi
-git diff -- src > /tmp/_seed.diff; git -C /repo apply --check /tmp/_seed.diff && echo "rebased: applies to main"
+git diff -- src > /tmp/_seed_$$.diff; git -C /repo apply --check /tmp/_seed_$$.diff && echo "rebased: applies to main"; rm -f /tmp/_seed_$$.diff
